@@ -24,6 +24,7 @@ pub fn dispatch(op: &str, case: &Value) -> Value {
         "typed_request" => op_typed_request(case),
         "openapi" => op_openapi(case),
         "echo" => op_echo(case),
+        "request_id_relay" => op_request_id_relay(case),
         _ => json!({"error": format!("unknown op {}", op)}),
     }
 }
@@ -1053,4 +1054,50 @@ fn op_echo(case: &Value) -> Value {
         let _ = tokio::time::timeout(std::time::Duration::from_millis(500), server.close()).await;
         json!({"connections": out})
     })
+}
+
+// ---------------------------------------------------------------------------------- C13 stamping on the wire
+#[endpoint { method = GET, path = "/relay" }]
+async fn relay(r: RequestContext<()>) -> Result<hyper::Response<dropshot::Body>, HttpError> {
+    // a handler relaying an upstream response, headers included
+    Ok(hyper::Response::builder().status(200).header("x-request-id", "upstream-5f0c1a52").header("x-handler-saw", r.request_id.clone())
+        .body(dropshot::Body::from("relayed".to_string())).unwrap())
+}
+#[endpoint { method = GET, path = "/plain" }]
+async fn plain(r: RequestContext<()>) -> Result<hyper::Response<dropshot::Body>, HttpError> {
+    Ok(hyper::Response::builder().status(200).header("x-handler-saw", r.request_id.clone()).body(dropshot::Body::empty()).unwrap())
+}
+#[endpoint { method = GET, path = "/fail" }]
+async fn fail(_r: RequestContext<()>) -> Result<HttpResponseOk<()>, HttpError> {
+    Err(HttpError::for_unavail(None, "internal-secret".to_string()))
+}
+
+/// {"op":"request_id_relay"}: 40 requests over /plain /relay /fail /nonexistent: one x-request-id each, equal to the handler's / error body's, all unique
+fn op_request_id_relay(_case: &Value) -> Value {
+    let mut api = ApiDescription::new();
+    api.register(relay).unwrap();
+    api.register(plain).unwrap();
+    api.register(fail).unwrap();
+    let paths = ["/plain", "/relay", "/fail", "/nonexistent"];
+    let reqs: Vec<Vec<Vec<u8>>> = (0..40).map(|i| vec![format!("GET {} HTTP/1.1\r\nHost: r\r\nConnection: close\r\n\r\n", paths[i % 4]).into_bytes()]).collect();
+    let resps = crate::live::serve_raw(api, 1024, reqs);
+    let mut ids = vec![];
+    let mut problems = vec![];
+    for (i, r) in resps.into_iter().enumerate() {
+        let Some(r) = r else { problems.push(format!("#{} no response", i)); continue };
+        let xs = r.header_all("x-request-id");
+        if xs.len() != 1 { problems.push(format!("#{} {} has {} x-request-id headers: {:?}", i, paths[i % 4], xs.len(), xs)); continue }
+        let saw = r.header_all("x-handler-saw");
+        if !saw.is_empty() && saw[0] != xs[0] { problems.push(format!("#{} handler saw {} but header is {}", i, saw[0], xs[0])); }
+        if r.status >= 400 {
+            let b: Value = serde_json::from_slice(&r.body).unwrap_or(Value::Null);
+            if b["request_id"] != xs[0] { problems.push(format!("#{} error body id {} != header {}", i, b["request_id"], xs[0])); }
+            if String::from_utf8_lossy(&r.body).contains("internal-secret") { problems.push(format!("#{} internal message leaked", i)); }
+        }
+        ids.push(xs[0].clone());
+    }
+    let mut uniq = ids.clone();
+    uniq.sort(); uniq.dedup();
+    if uniq.len() != ids.len() { problems.push("request ids repeat".to_string()); }
+    json!({"as_specified": problems.is_empty(), "problems": problems, "requests": ids.len()})
 }
